@@ -613,7 +613,15 @@ fn sigs_of(res: &Option<Outcome>, stats: &RunStats) -> Vec<(String, String)> {
 }
 
 fn shrink(cs: u64, policy: Policy, ops: &[Op], sig: &str) -> Vec<Op> {
-    let mut budget = 150usize;
+    let calls: usize = ops
+        .iter()
+        .map(|o| match o {
+            Op::Churn { n, .. } => *n as usize * 2,
+            _ => 1,
+        })
+        .sum();
+    // expensive histories (16-bit churns) get fewer shrink executions
+    let mut budget = (4_000_000 / calls.max(1)).clamp(40, 150);
     let test = |cand: &[Op]| -> bool {
         let (r, s) = run_ops(cs, cand, policy);
         sigs_of(&r, &s).iter().any(|(x, _)| x == sig)
@@ -635,6 +643,29 @@ fn shrink(cs: u64, policy: Policy, ops: &[Op], sig: &str) -> Vec<Op> {
     for i in 0..cur.len() {
         if let Op::Churn { n, .. } = cur[i].clone() {
             let (mut lo, mut hi) = (0u32, n); // hi fails
+            // the counter widths are the natural guesses
+            for guess in [256u32, 65_536] {
+                if guess < hi && guess > lo && budget >= 2 {
+                    let mut run = |k: u32| {
+                        let mut cand = cur.clone();
+                        if let Op::Churn { n, .. } = &mut cand[i] {
+                            *n = k;
+                        }
+                        let (r, s) = run_ops(cs, &cand, policy);
+                        sigs_of(&r, &s).iter().any(|(x, _)| x == sig)
+                    };
+                    budget -= 1;
+                    if run(guess) {
+                        hi = guess;
+                        budget -= 1;
+                        if !run(guess - 1) {
+                            lo = guess - 1;
+                        }
+                    } else {
+                        lo = guess;
+                    }
+                }
+            }
             while lo + 1 < hi && budget > 0 {
                 let mid = lo + (hi - lo) / 2;
                 let mut cand = cur.clone();
